@@ -53,11 +53,51 @@ def v_files():
     return sorted(glob.glob(os.path.join(C.COQ, "**", "*.v"), recursive=True))
 
 
-def scan_forbidden():
-    """Returns list of (file, line, text) for forbidden constructs, incl. section-less
-    Variable/Hypothesis."""
+def cone(prop):
+    """.v files in the dependency cone of Properties/<prop>.v (from coq_makefile's .Makefile.d);
+    None when the dependency file is unavailable."""
+    dfile = os.path.join(C.COQ, ".Makefile.d")
+    if not os.path.exists(dfile):
+        return None
+    deps = {}
+    for line in open(dfile):
+        if ":" not in line:
+            continue
+        lhs, rhs = line.split(":", 1)
+        tgts = lhs.split()
+        if not tgts or not tgts[0].endswith(".vo"):
+            continue
+        key = os.path.normpath(tgts[0])
+        deps[key] = [os.path.normpath(x) for x in rhs.split() if x.endswith(".vo")]
+    start = os.path.normpath("Properties/%s.vo" % prop)
+    if start not in deps:
+        return None
+    seen = set()
+    todo = [start]
+    while todo:
+        x = todo.pop()
+        if x in seen:
+            continue
+        seen.add(x)
+        todo.extend(deps.get(x, []))
+    return sorted(os.path.join(C.COQ, x[:-1]) for x in seen)
+
+
+def scan_forbidden(prop=None):
+    """Returns list of (file, line, text) for forbidden constructs (incl. section-less
+    Variable/Hypothesis) in the dependency cone of the property (all files if unknown)."""
     bad = []
-    for f in v_files() + sorted(glob.glob(os.path.join(C.OCAML, "*", "extract.v"))):
+    files = cone(prop) if prop else None
+    if files is None:
+        files = v_files()
+    if prop:
+        ex = os.path.join(C.OCAML, prop, "extract.v")
+        files = files + ([ex] if os.path.exists(ex) else [])
+    else:
+        files = files + sorted(glob.glob(os.path.join(C.OCAML, "*", "extract.v")))
+    for f in files:
+        if not os.path.exists(f):
+            continue
         src = strip_comments(open(f).read())
         depth = 0
         for ln, line in enumerate(src.split("\n"), 1):
@@ -97,10 +137,6 @@ def audit_property(prop, extra_targets=()):
     """Build Properties/<prop>.vo freshly, audit assumptions.
     Returns dict(ok, theorems, closed, axioms, failures, output)."""
     res = {"ok": True, "theorems": [], "axioms": {}, "failures": [], "output": ""}
-    bad = scan_forbidden()
-    if bad:
-        res["ok"] = False
-        res["failures"].append({"kind": "forbidden-construct", "where": ["%s:%d: %s" % b for b in bad[:20]]})
     pfile = os.path.join(C.COQ, "Properties", prop + ".v")
     src = strip_comments(open(pfile).read())
     thms = re.findall(r"^\s*(?:Theorem|Lemma|Corollary)\s+(\w+)", src, re.M)
@@ -128,6 +164,11 @@ def audit_property(prop, extra_targets=()):
         rc, out = C.run(["make", "-j%d" % C.NCPU, "Properties/%s.vo" % prop] + list(extra_targets),
                         cwd=C.COQ, timeout=3000)
     res["output"] = out[-6000:]
+    bad = scan_forbidden(prop)
+    res["cone"] = [os.path.relpath(f, C.VERIF) for f in (cone(prop) or [])]
+    if bad:
+        res["ok"] = False
+        res["failures"].append({"kind": "forbidden-construct", "where": ["%s:%d: %s" % b for b in bad[:20]]})
     if rc != 0:
         res["ok"] = False
         m = re.search(r'File "([^"]+)", line (\d+)[^\n]*\n(Error:.*?)(?:\nmake|\Z)', out, re.S)
